@@ -98,9 +98,12 @@ def _gen_case_(rng, tier, g, big):
     maxrows = 8 if tier == 'quick' else 12
     op = 'sort' if rng.random() < 0.6 else 'mergesort'
     nf = rng.randint(1, 4)
+    # values that are equal to values of another rank (1 and 1+0j)
+    eqnum = rng.random() < 0.04 and not big
     if op == 'sort':
         tables = [gen_sort_table(rng, big or maxrows, nfields=nf,
-                                 minrows=big - 40 if big else 0)]
+                                 minrows=big - 40 if big else 0,
+                                 eqnum=eqnum)]
         hdr_arg, missing, presorted = None, None, False
         perms = None
     else:
@@ -108,7 +111,8 @@ def _gen_case_(rng, tier, g, big):
         ragged = rng.random() < 0.2
         tables = []
         for _ in range(nt):
-            t = gen_sort_table(rng, maxrows, nfields=nf, ragged=ragged)
+            t = gen_sort_table(rng, maxrows, nfields=nf, ragged=ragged,
+                               eqnum=eqnum)
             tables.append(t)
         # shuffled / extended headers on some inputs
         perms = None
@@ -173,6 +177,7 @@ def _gen_case_(rng, tier, g, big):
         if perms is not None:
             perms = None
     return {'prop': PROP, 'op': op, 'tables': tables, 'perms': perms,
+            'eqnum': eqnum,
             'sweep': sweep, 'inner': inner,
             'key': key, 'reverse': rng.random() < 0.35,
             'buffersize': rng.choice([255, 256, 257, 258, 300, n0 - 1, n0])
@@ -330,6 +335,8 @@ def _history(e, case, tables, expected, td, sb, log, probes):
             if 'exc' in v.sig:
                 sig['exc'] = v.sig['exc']
             sig['key_none'] = case['key'] is None
+            if case.get('eqnum'):
+                sig['equal_values_of_different_rank'] = True
             if case['op'] == 'mergesort':
                 sig['permuted_headers'] = bool(case.get('perms'))
                 sig['missing_arg'] = case.get('missing') is not None
